@@ -18,7 +18,7 @@ RULE = ("exhaustive: every string column of length <= n over {'', 'a', ',', '\"'
         "into consecutive spans x the full configuration grid src_chunksize in 1..5 x value buffer (dest_chunksize*mult) in "
         "{2m, 2m+1, 2m+2, 2m+5, 64} (m = longest span output; 2m is the smallest buffer the property admits), factored "
         "alternately as (V,1)/(1,V)/(a,b) (quick n<=3, thorough n<=4); columns of length n+1 with one rotating grid "
-        "point each; then seeded random columns up to 40 rows over a 14-piece alphabet with random partitions, general "
+        "point each (quick: every third of them); then seeded random columns up to 40 rows over a 14-piece alphabet with random partitions, general "
         "(non-partition, even non-monotone) boundary lists, HDF5 and memory sources/destinations; a kernel-level stream "
         "calling _apply_spans_concat_2 directly with arbitrary sp_start/dest_start_v/limits; and a small stream with value "
         "buffers below the admitted size, run only interpreted / bounds-checked (an out-of-bounds write under the JIT "
@@ -137,8 +137,15 @@ def max_out(case):
     return max([len(o) for o in outs] + [0])
 
 
+def holds_one_span(case):
+    """the literal reading of the precondition: the value buffer can hold the longest span output"""
+    return case["op"] == "concat_session" and case["sc"] >= 1 and bool(case["strs"] or len(case["spans"]) < 2) \
+        and max_out(case) <= case["dc"] * case["mult"]
+
+
 def admitted(case):
-    """the property's precondition: the value buffer holds twice the longest span output, chunk sizes are positive"""
+    """the property's precondition as DESIGN.md fixes it (and as Props.C16.concat_eq_spec assumes it): no span output is
+    longer than half the value buffer, chunk sizes are positive"""
     if case["op"] != "concat_session":
         return True
     if not case["strs"] and len(case["spans"]) >= 2:
@@ -208,7 +215,13 @@ def gen_cases(tier, rng):
         grid = [(sc, vm) for sc in range(1, max(n, 1) + 1) for vm in VMODES]
         for col in itertools.product(ALPHA_SMALL, repeat=n):
             for spans in partitions(n):
-                pts = grid if n <= n_full else [grid[(k * 7) % len(grid)]]
+                if n <= n_full:
+                    pts = grid
+                elif tier == "quick" and (k // 1) % 3 != 0:
+                    k += 1
+                    continue
+                else:
+                    pts = [grid[(k * 7) % len(grid)]]
                 for sc, vm in pts:
                     k += 1
                     c = session_case(list(col), spans, sc, vm, k)
@@ -396,7 +409,12 @@ def check_spec(case, io, mode):
     ok_pre = admitted(case)
     if "err" in io:
         if not ok_pre and io["err"] == "index_error":
-            return None     # outside the property's precondition the interpreted code may refuse
+            if holds_one_span(case):
+                # NC16b: the buffer could hold every single span output, but the kernel does not check the room left
+                return (f"raised index_error although the value buffer ({case['dc'] * case['mult']} bytes) can hold the "
+                        f"longest span output ({max_out(case)} bytes): the kernel only ends a batch once half the buffer "
+                        f"is used and never checks the room left (out-of-bounds write under the JIT)")
+            return None     # outside the property's precondition under any reading: the interpreted code may refuse
         return f"raised {io['err']} ({io.get('msg', '')}) instead of storing the concatenated spans"
     entries = enc(case["strs"])
     outs = concat_spec(entries, case["spans"])
@@ -422,7 +440,11 @@ def check_spec(case, io, mode):
 
 
 def match_finding(case, io, mode):
-    return None     # no open finding for C16: D25 and NC16a are repaired (fixed: entries suppress nothing)
+    """D25 and NC16a are repaired (their fixed: entries suppress nothing). NC16b (open): IndexError / out-of-bounds write
+    exactly when some span output is longer than half the value buffer although the buffer could hold it."""
+    if case["op"] == "concat_session" and io.get("err") == "index_error" and holds_one_span(case) and not admitted(case):
+        return "NC16b"
+    return None
 
 
 def batches(mo):
